@@ -91,4 +91,23 @@ def emit(repo, spec, H):
             raise ValueError("%s:%s: anchor %r matched %d times (need exactly 1)" % (f, fn, anchor, len(ms)))
         out.append("(* %s: %s *)" % (f, fn))
         out.append("Definition %s : string := %s." % (name, _q(ms[0].group(1))))
+    # C conditions translated expression by expression into Gallina (Z-valued, C truth value 0/1), taken from the
+    # preprocessed function body: spec["conds"] = [[file, func, anchor-regex (group 1 = the C expression), name,
+    # [params], {c-subexpr: identifier}], ...]
+    for f, fn, anchor, name, params, subst in spec.get("conds", []):
+        body = H.func_body(H.src(repo, f), fn)
+        ms = list(re.finditer(anchor, body))
+        if len(ms) != 1:
+            raise ValueError("%s:%s: anchor %r matched %d times (need exactly 1)" % (f, fn, anchor, len(ms)))
+        cexpr = " ".join(ms[0].group(1).split())
+        e = cexpr
+        for k in sorted(subst, key=len, reverse=True):
+            e = e.replace(k, " %s " % subst[k])
+        e = re.sub(r"\(\s*(?:unsigned\s+)?(?:long|int32|int|uint32|size_t)\s*\)", " ", e)
+        env = {}
+        env.update(H.all_enums(H.src(repo, f)))
+        env.update(H.defines(repo, f))
+        term = H.P(e, params, env).ternary_all()
+        out.append("(* %s: %s: %s *)" % (f, fn, cexpr.replace("*)", "* )").replace("(*", "( *")))
+        out.append("Definition %s %s : Z := %s." % (name, " ".join("(%s : Z)" % p_ for p_ in params), term))
     return out
